@@ -44,6 +44,12 @@ inductive RRes (ε : Type) where
   | stuck                                    -- no report at all (panic / did not terminate)
 deriving Repr, DecidableEq
 
+/-- the error a report carries, if any -/
+def RRes.err {ε : Type} : RRes ε → Option ε
+  | .fail e => e
+  | .rb _ _ e => e
+  | _ => none
+
 structure Cur where
   S : Bytes
   pos : Nat
@@ -138,5 +144,33 @@ def Steady (M : Nat) : List Resp → Nat → Nat → Bool
   | r :: rest, slen+1, z =>
     if r.k = 0 then r.err.isNone && z + 1 < M && Steady M rest (slen+1) (z+1)
     else (r.err.isNone || slen = 0) && Steady M rest slen 0
+
+/-- liveness over a steady source (or a bytes reader): a request that fits into the rest of the
+    stream is served in full — no failure, no short ReadBinary -/
+def liveOk {ε : Type} (c : Cur) : ROp → RRes ε → Bool
+  | .next n, .fail _ | .peek n, .fail _ | .skip n, .fail _ => n < 0 || n.toNat > c.rest.length
+  | .readBinary n, .rb _ m _ => m == min n c.rest.length
+  | _, _ => true
+
+/-- the complete judgement of one report (this is the driver's verdict): the cursor contract, then
+    error provenance, then — when the source is `live` (steady / bytes) — liveness -/
+def Cur.judge (M : Nat) (script : List Resp) (live : Bool) (c : Cur) (op : ROp) (res : RRes RErr) :
+    Except String Cur :=
+  match c.step op res with
+  | .error why => .error why
+  | .ok c' =>
+    if (match res.err with
+        | some e => !errAllowed M script op e
+        | none => false) then .error "foreign-error"
+    else if live && !liveOk c op res then .error "spurious-failure"
+    else .ok c'
+
+def Cur.judgeRun (M : Nat) (script : List Resp) (live : Bool) (c : Cur) :
+    List (ROp × RRes RErr) → Except String Cur
+  | [] => .ok c
+  | (op, res) :: rest =>
+    match c.judge M script live op res with
+    | .ok c' => c'.judgeRun M script live rest
+    | .error s => .error s
 
 end Verif
